@@ -358,16 +358,92 @@ def _missing(ctx) -> None:
     for s in lp.body:
         if isinstance(s, ast.Break):
             brk.append(s)
-    # exact scan first, per name
-    var = lp.target.id if isinstance(lp.target, ast.Name) else "?"
-
-    def appends_copy(stmts, cv):
-        txt = [short(x) for x in stmts]
-        return any(t.startswith(tuple(f"{r}.append({cv}.copy())" for r in result_lists)) for t in txt)
-    probs = nameres.exact_scan_problems(prog, lp.body, var, "Table.__getitem__(names)", appends_copy)
+    # exact scan first, per name: decided on the symx event log (append-in-scan-loop and search-then-append forms alike)
+    probs = [p_ for p_ in multi_name_exact_first(prog)]
     probs += [f"the loop over the requested names can be left early by `{short(s, 40)}`" for s in early + brk]
     ctx.ob("d.must-append", f, "exact-first", not probs, "per requested name the exact stored-name scan comes first and yields a copy", lp,
            message="; ".join(p if isinstance(p, str) else p[0] for p in probs))
+
+
+def multi_name_selection(prog):
+    """(interp, names loop id, result list term, append events) of Table.__getitem__'s tuple-of-names branch."""
+    from ..symx import Interp as SInterp
+    from ..symx import elements
+    f = prog.func("table.Table.__getitem__")
+    it = SInterp(prog, f)
+    best = None
+    for e in it.events:
+        if e.kind == "return" and e.depth == 0 and e.term[0] == "call" and e.term[1] == ("name", "Table") and len(e.term[2]) == 1 \
+                and e.term[2][0][0] == "obj" and it.objs[e.term[2][0][1]].kind in ("list", "listcomp"):
+            rc = e.term[2][0]
+            els = elements(it, rc)
+            if els and all(x.loops for x in els):
+                Ln = els[0].loops[0]
+                lp = it.loops[Ln]
+                if lp.iter is not None and lp.kind == "for" and all(x.loops[0] == Ln for x in els):
+                    best = (it, Ln, rc, els)
+    if best is None:
+        raise AnalysisError("Table.__getitem__: multi-name selection (a list of columns filled per requested name, returned as Table) not found")
+    return best
+
+
+def multi_name_exact_first(prog) -> List[str]:
+    from ..symx import NONE as SNONE
+    from ..symx import show, show_conds
+    it, Ln, rc, els = multi_name_selection(prog)
+    S = ("param", "self")
+    cols = ("attr", S, "_underlying")
+    name = ("elem", it.loops[Ln].iter, Ln)
+    probs: List[str] = []
+
+    def scan_ok(Ls: int, conds_inside, what: str) -> bool:
+        lp = it.loops[Ls]
+        src = lp.domain if (lp.domain is not None and lp.domain[0] != "tuple") else lp.iter
+        if src != cols:
+            probs.append(f"{what}: the first scan ranges over `{show(src, it)[:50]}`, not over all columns in order")
+            return False
+        el = ("elem", cols, Ls)
+        want = ("cmp", "Eq", ("attr", el, "_name"), name)
+        alt = ("cmp", "Eq", name, ("attr", el, "_name"))
+        if list(conds_inside) not in ([(want, True)], [(alt, True)]):
+            probs.append(f"{what}: the first scan matches under `{show_conds(conds_inside, it)[:80]}`, not under the exact test "
+                         f"`col._name == name` (a sanitised look-alike placed earlier could win over the exactly named column)")
+            return False
+        if len(lp.breaks) != 1 or list(lp.breaks[0][len(lp.conds):]) != list(conds_inside):
+            probs.append(f"{what}: the exact scan does not stop at the first exactly named column")
+            return False
+        return True
+    first = min(els, key=lambda e: e.seq)
+    v = first.value if first.kind == "elem" else (first.term[2][0] if first.term[2] else None)
+    what = "Table.__getitem__(names)"
+    if v is None or not (v[0] == "call" and v[1][0] == "attr" and v[1][2] == "copy" and not v[2] and not v[3]):
+        probs.append(f"{what}: the selected column is added as `{show(v, it)[:60]}`, not as a plain copy")
+        return probs
+    X = v[1][1]
+    if len(first.loops) == 2:
+        Ls = first.loops[1]
+        if first.conds[len(it.loops[Ln].conds):len(it.loops[Ls].conds)]:
+            probs.append(f"{what}: the exact scan runs only under `{show_conds(first.conds[len(it.loops[Ln].conds):len(it.loops[Ls].conds)], it)[:60]}`")
+        if scan_ok(Ls, first.conds[len(it.loops[Ls].conds):], what) and X != ("elem", cols, Ls):
+            probs.append(f"{what}: the exact match does not yield the matched column itself")
+    elif len(first.loops) == 1:
+        # search-then-append: X = first@L(exact) , or (fallback if first@L is None else first@L)
+        F = X
+        if X[0] == "ifexp" and X[1][0] == "cmp" and X[1][1] == "Is" and X[1][3] == SNONE and X[3] == X[1][2]:
+            F = X[3]
+        if F[0] != "first":
+            probs.append(f"{what}: the branch does not start with the exact stored-name scan (selected column is `{show(X, it)[:70]}`)")
+        else:
+            Ls = F[1]
+            lp = it.loops[Ls]
+            inside = lp.breaks[0][len(lp.conds):] if len(lp.breaks) == 1 else ()
+            if lp.conds[len(it.loops[Ln].conds):]:
+                probs.append(f"{what}: the exact scan runs only under `{show_conds(lp.conds[len(it.loops[Ln].conds):], it)[:60]}`")
+            if scan_ok(Ls, inside, what) and (F[2] != ("elem", cols, Ls) or F[3] != SNONE):
+                probs.append(f"{what}: the exact match does not yield the matched column itself")
+    else:
+        probs.append(f"{what}: columns are appended in {len(first.loops)} nested loops")
+    return probs
 
 
 # ---------------------------------------------------------------------------------------------
